@@ -1,27 +1,92 @@
-import GoLevel.Proofs.LocksOrphanClk
-/-! `Close` leaves `db.closeW.Wait()` only when both compaction goroutines have exited (any configuration). -/
+import GoLevel.Proofs.LocksRO
+/-! The write lock of a read-only (or corrupted) DB is kept through `Close` (wp51, repair of D42).
+
+Configuration: `compactionError`'s `closeC` case does `close(db.compLockedC)` instead of giving the lock back
+(`cfg.m = .asCoded true`) and `Close` selects on `writeLockC <-` / `<-compLockedC` (`cfg.closeSel = true`), with the
+hand-over of 832d000.  Once `compWriteLocking` is set the token never leaves `writeLockC` again — it belongs to the
+machine until the machine returns, and to `Close` from then on (`KeepInv`, `kept_locked`) — so no thread is ever again
+between acquiring and releasing the write lock, and a thread at the first `select` of a write-side call can only
+return (`sel_thread_step_tok`), before `Close`, during `Close` and after it. -/
 namespace GoLevel.Locks
+open CompErr
 set_option linter.unusedSimpArgs false
 
-theorem ackWs_clWait (ws : List Pc) (w : Option Nat) (b : Bool) (i : Nat) (hi : ws[i]? = some .clWait) :
-    (ackWs ws w b)[i]? = some .clWait := by
-  unfold ackWs
-  split
-  · rename_i j
-    split
-    · rename_i b' site lg hj
-      split
-      · rw [List.getElem?_set]
-        split
-        · rename_i hji; subst hji; rw [hj] at hi; cases hi
-        · exact hi
-      · exact hi
-    · exact hi
-  · exact hi
+/-- `compWriteLocking`, once set, stays set -/
+theorem step_cwl (cfg : Cfg) (s t : St) (f : Bool) (h : Step cfg f s t) (hr : s.cwl = true) : t.cwl = true := by
+  cases h <;> (try simp only [St.setDone, St.setBg]) <;> (repeat' split) <;> simp_all
 
-theorem clWait_step (cfg : Cfg) (s t : St) (f : Bool) (h : Step cfg f s t) (i' : Nat)
-    (hi' : s.ws[i']? = some .clWait) :
-    t.ws[i']? = some .clWait ∨ (s.mc = .exited ∧ s.tc = .exited) := by
+theorem steps_cwl (cfg : Cfg) (s t : St) (h : Steps cfg s t) (hr : s.cwl = true) : t.cwl = true :=
+  steps_inv_of_step (fun s => s.cwl = true) (fun s t f h => step_cwl cfg s t f h) s t h hr
+
+/-- the lock is kept: a read-only DB has `compWriteLocking` set; with `compWriteLocking` set the machine is in (or
+past) its persistent-error loop; and when it has returned, `Close` owns the lock -/
+def KeepInv (s : St) : Prop :=
+  (s.ro = true → s.cwl = true) ∧
+  (s.cwl = true → s.eh = .hasperr ∨ s.eh = .closing ∨ s.eh = .exited) ∧
+  (s.cwl = true → s.eh = .exited → s.closeTok = true)
+
+theorem step_keepInv (cfg : Cfg) (hm : cfg.m = .asCoded true) (hh : cfg.HandsOver) (s t : St) (f : Bool)
+    (h : Step cfg f s t) (inv : KeepInv s) : KeepInv t := by
+  unfold KeepInv at *
+  obtain ⟨k1, k2, k3⟩ := inv
+  obtain ⟨s1, s2, s3, s4⟩ := hh
+  cases h <;> (try simp only [St.setDone, St.setBg]) <;> (repeat' split) <;>
+    simp_all [roSets, recvs_asCoded, closes_asCoded, offLock_asCoded, onClose_asCoded, next_asCoded] <;>
+    (try (rename_i he; rcases he with he | he <;> simp_all [nextC])) <;> (try grind)
+
+theorem keepInv_init (n : Nat) : KeepInv (init n) := by simp [KeepInv, init]
+
+/-- the repaired configurations: the three leaks and the `SetReadOnly`∥`Close` leak closed, the hand-over of 832d000,
+the machine keeps the lock on `closeC`, `Close` selects on `compLockedC` -/
+def Cfg.Keeps (cfg : Cfg) : Prop :=
+  Fixed3 cfg ∧ cfg.m = .asCoded true ∧ cfg.closeSel = true ∧ cfg.HandsOver ∧ cfg.setReadOnlyReleasesOnClose = true
+
+theorem keeps_covered (cfg : Cfg) (hk : cfg.Keeps) (s : St) (hr : Reachable cfg s) : Covered cfg s :=
+  ⟨hk.1, by rw [hk.2.2.1]; exact hk.2.1, Or.inl hk.2.2.2.1, Or.inl ⟨hk.2.2.2.2, Or.inl hr⟩⟩
+
+theorem keepInv_reachable (cfg : Cfg) (hk : cfg.Keeps) (s : St) (hr : Reachable cfg s) : KeepInv s := by
+  obtain ⟨n, hs⟩ := hr
+  exact steps_inv_of_step KeepInv (fun s t f h => step_keepInv cfg hk.2.1 hk.2.2.2.1 s t f h) _ _ hs (keepInv_init n)
+
+/-- **the lock is kept**: in every reachable state of a repaired configuration in which `compWriteLocking` is set —
+in particular once `SetReadOnly` returned nil (`compReadOnly` set) — the token is in `writeLockC`, it belongs to
+`compactionError` or to `Close`, no thread is between acquiring and releasing the write lock, none is between the two
+`select`s of `SetReadOnly`, no transaction is open: whether `Close` has been called or not. -/
+theorem kept_locked (cfg : Cfg) (hk : cfg.Keeps) (s : St) (hr : Reachable cfg s)
+    (hw : s.cwl = true ∨ s.ro = true) :
+    s.cwl = true ∧ s.tok = true ∧ (s.ehTok = true ∨ s.closeTok = true) ∧ tot tokW s.ws = 0 ∧ tot srW s.ws = 0 ∧
+    s.trOpen = false := by
+  have ki := keepInv_reachable cfg hk s hr
+  have hcw : s.cwl = true := hw.elim id ki.1
+  have hx := exact_handsOver cfg hk.1 (by rw [hk.2.2.1]; exact hk.2.1) hk.2.2.2.1 hk.2.2.2.2 s (Or.inl hr)
+  have hE : tot tokW s.ws + b2n s.trOpen + b2n s.ehTok + b2n s.closeTok = b2n s.tok := hx.1
+  have hsr : tot srW s.ws ≤ b2n s.ehTok := hx.2.2.1
+  have c1 := b2n_le s.tok
+  have c2 := b2n_le s.trOpen
+  have own : (s.ehTok = true ∧ tot srW s.ws = 0) ∨ s.closeTok = true := by
+    by_cases he : s.eh = .exited
+    · exact Or.inr (ki.2.2 hcw he)
+    · exact Or.inl (hx.2.1 hcw he)
+  rcases own with ⟨h1, h2⟩ | h1
+  · rw [h1] at hE; simp only [b2n_true] at hE
+    have htok : s.tok = true := by cases h : s.tok <;> simp_all [b2n] <;> omega
+    have htr : s.trOpen = false := by cases h : s.trOpen <;> simp_all [b2n] <;> omega
+    rw [htok] at hE; simp only [b2n_true] at hE
+    exact ⟨hcw, htok, Or.inl h1, by omega, h2, htr⟩
+  · rw [h1] at hE; simp only [b2n_true] at hE
+    have htok : s.tok = true := by cases h : s.tok <;> simp_all [b2n] <;> omega
+    have htr : s.trOpen = false := by cases h : s.trOpen <;> simp_all [b2n] <;> omega
+    have hk0 : s.ehTok = false := by cases h : s.ehTok <;> simp_all [b2n] <;> omega
+    rw [htok] at hE; simp only [b2n_true] at hE
+    rw [hk0] at hsr; simp only [b2n_false] at hsr
+    exact ⟨hcw, htok, Or.inr h1, by omega, by omega, htr⟩
+
+/-- while the token is in `writeLockC` — the DB open, closing or closed — a thread at the first `select` of a
+write-side call stays there, or returns the error it receives from `compPerErrC`, or returns `ErrClosed`: it does
+not get the lock -/
+theorem sel_thread_step_tok (cfg : Cfg) (s t : St) (f : Bool) (h : Step cfg f s t) (i' : Nat) (p' q' : Pc)
+    (hi' : s.ws[i']? = some p') (hsel : selNext p' = some q') (htok : s.tok = true) :
+    t.ws[i']? = some p' ∨ t.ws[i']? = some (.retE s.ehErr) ∨ t.ws[i']? = some (.ret false) := by
   cases h with
   | startPut _ i hi =>
     (try simp only [St.setDone, St.setBg, ↓reduceIte, Bool.false_eq_true, Bool.and_false, Bool.and_true, Bool.false_and, Bool.true_and]) <;> (repeat' split) <;> (try simp only [List.getElem?_set]) <;> grind [St.setBg, St.setDone, St.bg, clearW, onOk, onErr, selNext, afterSetErr]
@@ -185,22 +250,9 @@ theorem clWait_step (cfg : Cfg) (s t : St) (f : Bool) (h : Step cfg f s t) (i' :
     (try simp only [St.setDone, St.setBg, ↓reduceIte, Bool.false_eq_true, Bool.and_false, Bool.and_true, Bool.false_and, Bool.true_and]) <;> (repeat' split) <;> (try simp only [List.getElem?_set]) <;> grind [St.setBg, St.setDone, St.bg, clearW, onOk, onErr, selNext, afterSetErr]
   | bgAck _ b w hb =>
     left
-    have := ackWs_clWait s.ws w b i' hi'
+    have := ackWs_sel s.ws w b i' p' q' hi' hsel
     cases b <;> simpa [St.setBg] using this
   | bgExit _ b w ph hb hx =>
     (try simp only [St.setDone, St.setBg, ↓reduceIte, Bool.false_eq_true, Bool.and_false, Bool.and_true, Bool.false_and, Bool.true_and]) <;> (repeat' split) <;> (try simp only [List.getElem?_set]) <;> grind [St.setBg, St.setDone, St.bg, clearW, onOk, onErr, selNext, afterSetErr]
-
-/-- with `compCommitLk` leaked and `mCompaction` blocked on it, a `Close` in `closeW.Wait()` stays there -/
-theorem clkOrphan_close_stuck (cfg : Cfg) (s t : St) (h : Steps cfg s t) (ho : ClkOrphan s) (i : Nat)
-    (hi : s.ws[i]? = some .clWait) : ClkOrphan t ∧ t.ws[i]? = some .clWait := by
-  induction h with
-  | refl => exact ⟨ho, hi⟩
-  | tail _ h2 ih =>
-    obtain ⟨ho', hi'⟩ := ih
-    refine ⟨step_clkOrphan cfg _ _ _ h2 ho', ?_⟩
-    rcases clWait_step cfg _ _ _ h2 i hi' with h | ⟨h, _⟩
-    · exact h
-    · obtain ⟨_, _, _, w, hw⟩ := ho'
-      rw [hw] at h; cases h
 
 end GoLevel.Locks
